@@ -21,6 +21,7 @@
 #include <unifex/sender_concepts.hpp>
 #include <unifex/stop_token_concepts.hpp>
 
+#include <unifex/detail/verif_hooks.hpp>
 #include <unifex/detail/prologue.hpp>
 
 #include <atomic>
@@ -87,13 +88,16 @@ struct _op {
       // above), the receiver may have already destroyed *this. The
       // stack-local sync_complete flag lets us detect this without
       // touching any member.
+      UNIFEX_VERIF_YIELD("race.c_chk");
       if (sync_complete.load(std::memory_order_acquire)) {
         return;
       }
 
+      UNIFEX_VERIF_YIELD("race.c_started");
       if (auto state =
               this->state_.fetch_or(started, std::memory_order_acq_rel);
           state == stopped) {
+        UNIFEX_VERIF_YIELD("race.c_sstop");
         this->nested_op().stop();
       } else if (state & completed) {
         // try_complete() ran on another thread after unifex::start()
@@ -101,6 +105,7 @@ struct _op {
         // sync_complete_ = true momentarily. Wait for it to finish
         // before destroying the stack-local.
         while (!sync_complete.load(std::memory_order_acquire)) {
+          UNIFEX_VERIF_SPIN("race.c_spin");
         }
       }
     }
@@ -121,8 +126,10 @@ struct _op {
 
   struct stop_callback {
     void operator()() noexcept {
+      UNIFEX_VERIF_YIELD("race.c_stopped");
       if (auto state = op_->state_.fetch_or(stopped, std::memory_order_acq_rel);
           state == started /* neither stopped nor completed are set! */) {
+        UNIFEX_VERIF_YIELD("race.c_cstop");
         op_->nested_op().stop();
       }
     }
@@ -143,6 +150,7 @@ bool try_complete(NestedOp* self) noexcept {
   auto* non_stop =
       std::launder(reinterpret_cast<typename op::non_stop_type*>(self));
 
+  UNIFEX_VERIF_YIELD("race.c_completed");
   auto state =
       non_stop->state_.fetch_or(op::completed, std::memory_order_acq_rel);
 
@@ -161,12 +169,14 @@ bool try_complete(NestedOp* self) noexcept {
       // start() will either see this via its initial sync_complete
       // check (synchronous completion on the same thread) or via the
       // spin-wait after observing completed in fetch_or(started).
+      UNIFEX_VERIF_YIELD("race.c_flag");
       if (auto* flag = stop_self->sync_complete_) {
         flag->store(true, std::memory_order_release);
       }
     }
 
     // This line never executes if used with a non-stop token.
+    UNIFEX_VERIF_YIELD("race.c_cleanup");
     (*stop_self->cleanup_)(stop_self);
 #if defined(__GNUC__)
 #  pragma GCC diagnostic pop
@@ -205,6 +215,7 @@ struct _op<NestedOp>::type : _op<NestedOp>::stop_type {
     };
 
     if constexpr (StopsEarly) {
+      UNIFEX_VERIF_YIELD("race.c_early");
       if (this->state_.load(std::memory_order_acquire) & stopped) {
         this->nested_op().stop();
         return;
